@@ -5,3 +5,4 @@ import GscribModel.Props.C02
 import GscribModel.Props.C05
 import GscribModel.Props.C06
 import GscribModel.Props.C03
+import GscribModel.Props.C01
